@@ -6,9 +6,9 @@ def ident(r, pool):
     return r.choice(pool)
 
 
-ENT = ['User', 'Group', 'Doc', 'A', 'B', 'String', 'Long', 'ipaddr', 'Bool', 'T', 'decimal', '_x', 'Extension', 'Entity']
+ENT = ['User', 'Group', 'Doc', 'A', 'B', 'String', 'Long', 'ipaddr', 'Bool', 'T', 'decimal', '_x', 'Extension', 'Entity', 'E__cedar', '__cedar_e']
 CT = ['T', 'U', 'Ctx', 'A', 'ipaddr', 'Rec', 'decimal', 'User']
-NS = ['', 'NS', 'A', 'NS::Inner', 'B']
+NS = ['', 'NS', 'A', 'NS::Inner', 'B', 'X__cedar', 'App__cedar_compat::v1', '__cedarx']
 ATTR = ['a', 'b', 'name', 'x y', 'in', 'if', '', 'é', '__cedar', 'type', '1a', 'a.b', '"', 'entity', 'action']
 
 
